@@ -5,15 +5,42 @@ from lib import Case
 
 RULE = ('inv: all |a|,m in a box + random 256-bit pairs; perfect_power: all n below a bound + random b^k (+-1); '
         'kronecker: all (a,b) in a box + near the i64 extremes; primes: every bound below a limit; '
-        'non-trivial = gcd>1 or negative a (inv), true perfect powers and neighbours, both arguments non-zero and not both even (kronecker)')
-PROVED = ['inv_spec (all a, m >= 1)', 'zmod_spec', 'extgcd fuel sufficiency', 'perfect_power_spec (all n >= 0, floor-root model of nth_root)',
-          'kronecker: range {-1,0,1}, b = 0 and both-even clauses; bounded equality with the reference symbol']
-NOT_PROVED = ['kronecker = Kronecker symbol for unbounded arguments (needs quadratic reciprocity; not available in MathComp 1.15/stdlib)']
+        'non-trivial = gcd>1 or negative a (inv), true perfect powers and neighbours, both arguments non-zero and not both even (kronecker); '
+        'trial-division factorize (C01 helper): every n below a bound incl. n < 1 + random products')
+PROVED = [
+    '[P] extgcd_fuel_suffices: the recursive Euclid never runs out of the fuel the model gives it (all a, b)',
+    '[P] inv_spec: all a, all m >= 1: gcd = 1 -> Ok x, 0 <= x < m, a*x mod m = 1 mod m; else Err (gcd a m)',
+    '[P] zmod_spec: zmod x mo = x mod mo for mo > 0',
+    '[P] iroot_spec: the model of BigInt::nth_root is the floor root (k >= 1, n >= 0)',
+    '[P] perfect_power_spec: n >= 0 -> (b, k), b^k = n, k >= 1; for n >= 2 no k\' > k has an exact integer k\'-th root '
+    '(n = 0, 1 are k-th powers for every k and the code answers k = 1); perfect_power_negative: n < 0 panics',
+    '[P] primes_spec: the sieve returns exactly the strictly increasing list of the primes <= bound (Znumtheory.prime)',
+    '[P] td_is_prime_spec: the trial-division is_prime of primes.rs decides Znumtheory.prime (fuel suffices)',
+    '[P, partial correctness] primes_take_spec: a result of Primes::new().take(k) has length k, is strictly increasing and '
+    'is exactly the set of primes up to its last element (= the first k primes)',
+    '[P] kronecker_range: result in {-1,0,1} whenever the routine returns (all integers, both profiles)',
+    '[P] kronecker_b0 ((a/0) = [|a| = 1]) and kronecker_both_even (0)',
+    '[P] kronecker_total: for all a, b in the i64 range, dev and release profile, the routine returns: no overflow panic '
+    'is reachable (-b and a.abs() are only applied to odd values, never i64::MIN) and the loop fuel of the model suffices',
+    '[B] kronecker_bounded: for |a|, |b| <= 2^7 the routine equals the reference symbol kron_ref (factorisation of b over the '
+    'proved sieve, Euler criterion for odd primes, (a/2) table, (a/-1) = sign a), vm_compute over 257 x 257 x 2 profiles; '
+    'kron_ref_factorisation_bounded: the factorisation used by the reference is complete on the box',
+]
+NOT_PROVED = [
+    'kronecker = Kronecker symbol for unbounded arguments (needs quadratic reciprocity; not available in MathComp 1.15/stdlib)',
+    'prime iterator: that the fuel of one next() (now + 2 candidates) always suffices (Bertrand\'s postulate); primes_take_spec excludes OutOfFuel by hypothesis',
+    'BigInt::nth_root itself (num\'s Newton iteration) is not modelled: the model uses a bit-by-bit floor root, tied to the code by correspondence only',
+]
 
 CLAIM = dict(
-    technique='Coq proof about the Gallina model (inv/zmod/perfect_power/sieve/kronecker) + extracted-model-vs-implementation correspondence',
-    text='Theorems in coq/Props/C19.v hold for all integers (no bound); the model is tied to /repo by running the extracted model and impl_svc on the same inputs (exhaustive boxes + random big integers).',
-    note='Kronecker = mathematical symbol is proved only on a bounded box (quadratic reciprocity unavailable); BigInt::nth_root is modelled by its floor-root specification; trusted base listed in the evidence file.',
+    technique='Coq proofs about the Gallina model (inv/zmod/perfect_power/sieve/prime iterator/kronecker) + extracted-model-vs-implementation correspondence',
+    text='The 15 theorems of coq/Props/C19.v: modular inverse, zmod, floor root, perfect power, sieve, trial-division primality, '
+         'Kronecker range / b = 0 / both-even / totality on i64 hold for all integers (no bound); the prime iterator is proved partially '
+         'correct; Kronecker = mathematical symbol is proved on the box |a|,|b| <= 128 by enumeration. The model is tied to /repo by running the '
+         'extracted model and impl_svc on the same inputs (exhaustive boxes + random big integers + i64 extremes), with independent oracles.',
+    note='Not proved: Kronecker symbol equality beyond the box (quadratic reciprocity unavailable; covered by the oracle on the explored boxes only); '
+         'iterator fuel sufficiency (Bertrand); BigInt::nth_root is modelled by a floor-root routine, not num\'s Newton iteration. '
+         'Trusted base listed in the evidence file.',
     ref='DESIGN.md section 4, C19')
 
 def egcd(a, b):
@@ -88,13 +115,37 @@ def o_primes(bound):
         return None
     return orc
 
+def is_prime_td(p):
+    if p < 2: return False
+    d = 2
+    while d * d <= p:
+        if p % d == 0: return False
+        d += 1
+    return True
+
+def o_tf(n):
+    """trial division factorize (src/factorize.rs, used by C01): strictly increasing prime bases, positive exponents, product n"""
+    def orc(ia):
+        if n < 1: return None if ia.kind == 'panic' else 'factorize(%d) should hit its assertion: %s' % (n, ia.raw[:100])
+        if ia.kind != 'ok': return 'factorize(%d): %s' % (n, ia.raw[:100])
+        prod, last = 1, 1
+        for pe in ia.val:
+            p, e = pe
+            if p <= last or e < 1 or not is_prime_td(p): return 'factorize(%d) = %s: bad entry (%d,%d)' % (n, ia.raw[:200], p, e)
+            prod *= p ** e; last = p
+        if prod != n: return 'factorize(%d) = %s: product is %d' % (n, ia.raw[:200], prod)
+        return None
+    return orc
+
 def cases(rng, tier):
     th = tier == 'thorough'
     out = []
     # modular inverse
-    A, M = (200, 120) if not th else (2000, 600)
+    # (thorough: |a| <= 2000, m <= 2000 as in the property text, thinned by a stride above m = 64 to keep the case list
+    #  -- and the memory of the runner, which holds all cases and answers -- below ~1M entries)
+    A, M = (200, 120) if not th else (2000, 2000)
     for m in range(1, M + 1):
-        step = 1 if (th or m <= 30) else 7
+        step = (1 if m <= 64 else 29) if th else (1 if m <= 30 else 7)
         for a in range(-A + (m % step), A + 1, step):
             out.append(Case('inv', line('inv', a, m), oracle=o_inv(a, m), nontrivial=(egcd(a, m) > 1 or a < 0), tag='inv-box'))
     for _ in range(300 if not th else 3000):
@@ -120,13 +171,13 @@ def cases(rng, tier):
         k = rng.choice([2, 3, 4, 5, 6, 7, 9, 11, 12, 16, 30, 64])
         b = rng.getrandbits(rng.choice([2, 8, 16, 40])) + 2
         n = b ** k + rng.choice([0, 0, 0, 1, -1])
-        if n.bit_length() > 2200: continue
+        if n.bit_length() > (2200 if th else 800): continue    # the extracted model's Z is unary-binary: 1200-bit roots cost ~13 s each
         out.append(Case('perfect_power', line('perfect_power', n), oracle=o_pp(n), tag='pp-random'))
         kk = rng.choice([1, 2, 3, k, k + 1])
         out.append(Case('is_perfect_power', line('is_perfect_power', n, kk), tag='ipp'))
     out.append(Case('perfect_power', line('perfect_power', -5), nontrivial=False, tag='pp-negative'))
     # Kronecker
-    R = 45 if not th else 400
+    R = 45 if not th else 300
     for a in range(-R, R + 1):
         for b in range(-R, R + 1):
             out.append(Case('kronecker', line('kronecker', a, b), oracle=o_kron(a, b),
@@ -144,4 +195,11 @@ def cases(rng, tier):
         out.append(Case('primes', line('primes', bound), oracle=o_primes(bound), nontrivial=bound >= 2, tag='primes'))
     for k in [0, 1, 2, 10, 100, 300] + ([1000, 2000] if th else []):
         out.append(Case('primes_iter', line('primes_iter', k), tag='primes_iter'))
+    # trial-division factorize (lemma trial_factorize_spec in Refine/TrialDivProofs.v, consumed by C01)
+    for n in range(-2, 1200 if not th else 20000):
+        out.append(Case('trial_factorize', line('trial_factorize', n), oracle=o_tf(n), nontrivial=n >= 4, tag='trial-factorize'))
+    for _ in range(60 if not th else 600):
+        a = rng.getrandbits(rng.choice([4, 8, 12])) + 2; b = rng.getrandbits(rng.choice([4, 8, 12])) + 2
+        n = a ** rng.choice([1, 1, 2, 3]) * b
+        if n < 1 << 27: out.append(Case('trial_factorize', line('trial_factorize', n), oracle=o_tf(n), tag='trial-factorize'))
     return out
